@@ -13,7 +13,8 @@ def _gatt_builder(t, chk):
     seed = chk.CURRENT.get('seed', 1)
     replay = chk.CURRENT.get('replay')
     exclude = tuple(x for x in chk.CURRENT.get('exclude', '').split(',') if x)
-    flags = list(chk.BASE_FLAGS) + list(chk.SAN_FLAGS)
+    fuzz = bool(t.get('fuzz'))
+    flags = list(chk.BASE_FLAGS) + list(chk.SAN_FLAGS) + (['-fsanitize=fuzzer-no-link', '-DVG_FUZZ'] if fuzz else [])
     bdir = _os.path.join(chk.CACHE, 'build')
     _os.makedirs(bdir, exist_ok=True)
 
@@ -92,7 +93,7 @@ def _gatt_builder(t, chk):
     exe = _os.path.join(ldir, t['name'])
     if not _os.path.exists(exe):
         _os.makedirs(ldir, exist_ok=True)
-        cmd = ['clang++'] + list(chk.SAN_FLAGS) + [dobj] + good + ['-lrapidcheck', '-o', exe + '.tmp%d' % _os.getpid()]
+        cmd = ['clang++'] + list(chk.SAN_FLAGS) + (['-fsanitize=fuzzer'] if fuzz else []) + [dobj] + good + ['-lrapidcheck', '-o', exe + '.tmp%d' % _os.getpid()]
         r = _subprocess.run(cmd, stdout=_subprocess.PIPE, stderr=_subprocess.STDOUT, text=True)
         if r.returncode != 0:
             chk.log('LINK FAILED\n' + r.stdout[-3000:])
@@ -121,7 +122,7 @@ _GATT_NOTE = 'trusted: gen/gattgen.py (declaration + database description), lib/
 
 
 def _gatt_prop(pid, target, rule, level_text, technique='generated C++ server declarations + rapidcheck request histories against a reference ATT/GATT model (validity predicates per response, whole-store comparison)'):
-    prop(pid, [target], 'gatt', rule=rule, technique=technique, level_text=level_text, level_note=_GATT_NOTE, assumptions=_GATT_ASSUME)
+    prop(pid, target if isinstance(target, list) else [target], 'gatt', rule=rule, technique=technique, level_text=level_text, level_note=_GATT_NOTE, assumptions=_GATT_ASSUME)
 
 
 # ------------------------------------------------------------------------------------------------- targets and properties
@@ -129,7 +130,10 @@ _Q = dict(cases=6000, size=100, max_seconds=150)
 _T = dict(cases=600000, size=150, max_seconds=2400)
 
 _gatt_target('gatt_c01', 'default', 24, 200, quick=dict(_Q, opts={'max_ops': 40}), thorough=_T)
-_gatt_prop('C01', 'gatt_c01',
+TARGETS['gatt_c01_fuzz'] = dict(name='gatt_c01_fuzz', src=[], builder='gatt', kind='fuzz', fuzz=True, profile='default',
+                                decls={'quick': 8, 'thorough': 24},
+                                quick=dict(runs=100000, max_seconds=90, max_len=1024), thorough=dict(runs=20000000, max_seconds=1800, max_len=1024))
+_gatt_prop('C01', ['gatt_c01', 'gatt_c01_fuzz'],
            rule='24 (quick) / 200 (thorough) generated server declarations (services, characteristics of every value kind, descriptors, fixed handles, '
                 'includes, write queue, MTU 23..300) x rapidcheck histories of <= 40 operations: valid requests built from the declared database, the '
                 'same truncated/extended, every opcode 0x00..0xFF with random body, MTU exchanges, prepared writes, security changes; input and output '
